@@ -35,6 +35,7 @@ type TPOp struct {
 	K    string `json:"k"` // enq | deq | ack | nack | ext | adv
 	N    int    `json:"n,omitempty"`
 	Ms   int    `json:"ms,omitempty"` // ttl / delay / extend_by / advance, in milliseconds
+	Ns   int    `json:"ns,omitempty"` // plus this many nanoseconds (durations below one millisecond, ragged values)
 	Ref  int    `json:"ref,omitempty"`
 	Dead bool   `json:"dead,omitempty"`
 	Bad  string `json:"bad,omitempty"` // "" | unknown (a lease id nobody was given)
@@ -76,6 +77,12 @@ func genTPCase() *rapid.Generator[TPCase] {
 			if op.K == "ack" || op.K == "nack" || op.K == "ext" {
 				if rapid.IntRange(0, 7).Draw(t, "bad") == 0 {
 					op.Bad = "unknown"
+				}
+			}
+			if (op.K == "nack" || op.K == "ext" || op.K == "deq") && op.Ms >= 0 && rapid.IntRange(0, 3).Draw(t, "ragged") == 0 {
+				op.Ns = rapid.SampledFrom([]int{1, 999, 500000, 999999}).Draw(t, "ns")
+				if rapid.Bool().Draw(t, "sub_ms") && op.K != "deq" {
+					op.Ms = 0 // strictly between 0 and 1 ms
 				}
 			}
 			if op.K == "ack" || op.K == "nack" {
@@ -205,13 +212,13 @@ func (t *tpWorld) leasePlain(op TPOp, i int) string {
 }
 
 func (t *tpWorld) do(op TPOp) (class string, granted []string) {
-	d := time.Duration(op.Ms) * time.Millisecond
+	d := time.Duration(op.Ms)*time.Millisecond + time.Duration(op.Ns)
 	if t.grpc {
 		ctx := metadata.NewIncomingContext(context.Background(), metadata.Pairs("authorization", "Bearer tok"))
 		switch op.K {
 		case "deq":
 			req := &workerapipb.DequeueRequest{Endpoint: "/pull/p", Batch: uint32(op.N)}
-			if op.Ms > 0 {
+			if d > 0 {
 				req.LeaseTtl = durationpb.New(d)
 			}
 			resp, err := t.wk.Dequeue(ctx, req)
@@ -264,11 +271,11 @@ func (t *tpWorld) do(op TPOp) (class string, granted []string) {
 		_ = json.Unmarshal(rec.Body.Bytes(), &m)
 		return rec.Code, m
 	}
-	ms := fmt.Sprintf("%dms", op.Ms)
+	ms := fmt.Sprintf("%dns", d.Nanoseconds())
 	switch op.K {
 	case "deq":
 		body := map[string]any{"batch": op.N}
-		if op.Ms > 0 {
+		if d > 0 {
 			body["lease_ttl"] = ms
 		}
 		code, m := call("dequeue", body)
@@ -429,11 +436,11 @@ func runTP(c TPCase, _ bool) *fOutcome {
 				}
 				return nil
 			}
-			d := int64(time.Duration(op.Ms) * time.Millisecond)
+			d := int64(time.Duration(op.Ms)*time.Millisecond + time.Duration(op.Ns))
 			switch op.K {
 			case "deq":
 				ttl := d
-				if op.Ms <= 0 {
+				if d <= 0 {
 					ttl = int64(30 * time.Second) // documented default lease ttl
 				}
 				for _, id := range grantedG {
@@ -451,18 +458,18 @@ func runTP(c TPCase, _ bool) *fOutcome {
 						out.Failure = ffail("C05", "nack-delay", i, "%s: %s is ready at %+dms, want now+delay = %+dms", desc, holder.ID, (m.Next-fT0.UnixNano())/1e6, (now+d-fT0.UnixNano())/1e6)
 						return out
 					}
-					if op.Ms%1000 != 0 {
+					if op.Ms%1000 != 0 || op.Ns != 0 {
 						out.Labels["sub-second-nack-delay"] = true
 						out.NonTriv = true
 					}
 				}
 			case "ext":
-				if holder != nil && holder.Next > now && op.Ms > 0 {
+				if holder != nil && holder.Next > now && d > 0 {
 					if m := find(afterG, holder.ID); m == nil || m.State != "leased" || m.Next != holder.Next+d {
 						out.Failure = ffail("C04,C03", "extend-deadline", i, "%s: %s is %+v after the extend, want leased until old deadline + extend_by = %+dms", desc, holder.ID, m, (holder.Next+d-fT0.UnixNano())/1e6)
 						return out
 					}
-					if op.Ms%1000 != 0 {
+					if op.Ms%1000 != 0 || op.Ns != 0 {
 						out.Labels["sub-second-extend"] = true
 						out.NonTriv = true
 					}
@@ -472,7 +479,7 @@ func runTP(c TPCase, _ bool) *fOutcome {
 		if ch == "conflict" {
 			out.Labels["conflict"] = true
 		}
-		if (op.K == "ext" || op.K == "ack" || op.K == "nack") && holder == nil && ch == "ok" && op.K == "ext" && op.Ms > 0 {
+		if holder == nil && ch == "ok" && op.K == "ext" && (op.Ms > 0 || (op.Ms == 0 && op.Ns > 0)) {
 			// a positive extend with a lease that is not current must be a conflict (C04)
 			out.Failure = ffail("C04", "stale-extend-accepted", i, "%s: positive extend with a lease that is not current answered success on both transports", desc)
 			return out
